@@ -249,7 +249,7 @@ func runC13(w *mon.W) {
 	}
 	// long subjects and patterns with many wildcards (size thresholds): the subject is built from
 	// the pattern (match) and then perturbed (mostly no match)
-	for i := 0; i < w.Share(w.Pick(400, 8000)); i++ {
+	for i := 0; i < w.Share(w.Pick(1500, 8000)); i++ {
 		r := w.Rng
 		var pat, str strings.Builder
 		pieces := 1 + r.IntN(40)
@@ -308,7 +308,7 @@ func runC13(w *mon.W) {
 	}
 
 	// random longer pairs with multi-byte characters
-	n := w.Share(w.Pick(30000, 400000))
+	n := w.Share(w.Pick(100000, 400000))
 	for i := 0; i < n; i++ {
 		s := gen.String(w.Rng, gen.ValOpts{})
 		if w.Rng.IntN(2) == 0 {
